@@ -94,6 +94,9 @@ structure Graph where
   workspace : List Bool
   /-- direct dependency edges (any kind: normal, dev, build), `edges[i]` = successors of `i` -/
   edges : List (List Nat)
+  /-- names / ids of every test-capable build target of the workspace (`ParseContextCache`) -/
+  binaryNames : List (List Char) := []
+  binaryIds : List (List Char) := []
   deriving Repr
 
 def Graph.succ (g : Graph) (i : Nat) : List Nat := g.edges.getD i []
@@ -169,6 +172,42 @@ def compile (g : Graph) (ro : RegexOracle) : PExpr → CExpr
   | .diff a b => .inter (compile g ro a) (.not (compile g ro b))
   | .parens e => compile g ro e
   | .set s => .set (compileSet g ro s)
+
+/-! ### Compile-time errors (`compile`, `check_banned_predicates`, `expect_non_empty_*`) -/
+
+inductive CompileErr where
+  | bannedPredicate (s : Span)
+  | noPackageMatch (s : Span)
+  | noBinaryIdMatch (s : Span)
+  | noBinaryNameMatch (s : Span)
+  deriving DecidableEq, Repr
+
+/-- `check_banned_predicates` for `FiltersetKind::DefaultFilter`: every `default()` is an error -/
+def bannedErrors : PExpr → List CompileErr
+  | .not _ e => bannedErrors e
+  | .union _ a b => bannedErrors a ++ bannedErrors b
+  | .inter _ a b => bannedErrors a ++ bannedErrors b
+  | .diff a b => bannedErrors a ++ bannedErrors b
+  | .parens e => bannedErrors e
+  | .set (.default s) => [.bannedPredicate s]
+  | .set _ => []
+
+def setErrors (g : Graph) (ro : RegexOracle) : SetDef → List CompileErr
+  | .unary .package m s => if (g.matching ro m).isEmpty then [.noPackageMatch s] else []
+  | .unary .deps m s => if (g.depsOf ro m).isEmpty then [.noPackageMatch s] else []
+  | .unary .rdeps m s => if (g.rdepsOf ro m).isEmpty then [.noPackageMatch s] else []
+  | .unary .binary m s => if g.binaryNames.any (m.isMatch ro) then [] else [.noBinaryNameMatch s]
+  | .unary .binaryId m s => if g.binaryIds.any (m.isMatch ro) then [] else [.noBinaryIdMatch s]
+  | _ => []
+
+/-- errors of `compile_expr`, left operand first -/
+def compileErrors (g : Graph) (ro : RegexOracle) : PExpr → List CompileErr
+  | .not _ e => compileErrors g ro e
+  | .union _ a b => compileErrors g ro a ++ compileErrors g ro b
+  | .inter _ a b => compileErrors g ro a ++ compileErrors g ro b
+  | .diff a b => compileErrors g ro a ++ compileErrors g ro b
+  | .parens e => compileErrors g ro e
+  | .set s => setErrors g ro s
 
 /-- `FiltersetLeaf::matches_test`; `dflt` is the value of the default filter on the query
     (the default filter cannot mention `default()`, so it is evaluated separately). -/
